@@ -10,16 +10,21 @@ func Specs() map[string]*PropSpec {
 		}
 		m[s.ID] = s
 	}
-	add(&PropSpec{ID: "C05", Explanation: "lockset discipline", Rules: []RuleRef{rR15, rR14pair, rR6, rR17}})
+	add(&PropSpec{ID: "C05", Explanation: "lockset discipline", Rules: []RuleRef{rR15, rR15r, rR14pair, rR6, rR17}})
 	add(&PropSpec{ID: "C13", Explanation: "deadlock freedom", Rules: []RuleRef{rR14pair, rR14order, rR15m}})
 	add(&PropSpec{ID: "C06", Explanation: "lazy expiry", Rules: []RuleRef{rR21, rR22}})
 	add(&PropSpec{ID: "C03", Explanation: "reply framing", Rules: []RuleRef{rR8, rR13, rR13p, rR12c}})
-	add(&PropSpec{ID: "C01", Explanation: "string and key commands", Rules: []RuleRef{rR9, rR7, rR19, rR25}})
+	add(&PropSpec{ID: "C01", Explanation: "string and key commands", Rules: []RuleRef{rR9, rR7, rR19, rR25, rR27}})
 	add(&PropSpec{ID: "C09", Explanation: "lists", Rules: []RuleRef{rR20a, rR20b, rR20c, rR20d}})
 	add(&PropSpec{ID: "C04", Explanation: "no crash", Rules: []RuleRef{rR1}})
 	add(&PropSpec{ID: "C02", Explanation: "resp decoding", Rules: []RuleRef{rR9p, rR12c}})
-	add(&PropSpec{ID: "C07", Explanation: "cluster", Rules: []RuleRef{rR23u, rR16r}})
+	add(&PropSpec{ID: "C07", Explanation: "cluster", Rules: []RuleRef{rR23u, rR23, rR16r}})
 	add(&PropSpec{ID: "C08", Explanation: "durability", Rules: []RuleRef{rR16c, rR16r}})
 	add(&PropSpec{ID: "C16", Explanation: "wal", Rules: []RuleRef{rR16w}})
+	add(&PropSpec{ID: "C11", Explanation: "sets", Rules: []RuleRef{rR26, rR20b, rR20c, rR20d, rR25}})
+	add(&PropSpec{ID: "C14", Explanation: "cluster meaning", Rules: []RuleRef{rR10b, rR23}})
+	add(&PropSpec{ID: "C17", Explanation: "keys", Rules: []RuleRef{rR9k}})
+	add(&PropSpec{ID: "C19", Explanation: "pubsub", Rules: []RuleRef{rR17, rR14b}})
+	add(&PropSpec{ID: "C20", Explanation: "select", Rules: []RuleRef{rR20s}})
 	return m
 }
